@@ -2,3 +2,6 @@ add("C01", "runtime oracle comparison (sympy-derived CR3BP field/Jacobian/energy
     "held on the observed executions: thousands of (mu, state) samples incl. all catalogue mass ratios, random 42-D variational states, "
     "directional derivative of the library's own energy along its own field, and energy drift along trajectories of every RK method/order",
     "trusts sympy/numpy and the reference derivation from the effective potential; states >= 1e-2 from the primaries; finite samples only")
+add("C04", "runtime oracle comparison on live libration-point objects (mpmath roots and Taylor coefficients, sympy Jacobian spectrum, symplecticity/diagonalisation invariants) over generated mass ratios",
+    "held on the observed systems: every catalogue pair, an edge set around mu_Routh/0.5/2e-9 and log-uniform mu in [2e-9,0.5]; all five points, gamma, c_2..c_12, modes and the normal-form matrix checked against independent references",
+    "trusts mpmath/sympy/numpy; mode tolerance 1e-6 relative (position error amplified by 1/gamma); above mu_Routh a raised error for L4/L5 modes is accepted")
